@@ -78,8 +78,22 @@ extern "C" void h_scram_exchange()
     unsigned ln = vp_cfg(3), ls = vp_cfg(4), li = vp_cfg(5);
     QByteArray N = vpBytesExact(ln), S = vpBytesExact(ls), I = vpBytesExact(li);
     vp_assume(vpNoByte(N, ',') && vpNoByte(S, ',') && vpNoByte(I, ','));
-    QByteArray sf("r="); sf.append(N); sf.append(",s="); sf.append(S); sf.append(",i="); sf.append(I);
-    hintPieces(sf, 2 + ln, 2 + ls, 2 + li);
+    // server-first-message: the three mandatory attributes, optionally one more attribute E of le arbitrary bytes (an extension
+    // after i=, RFC 5802 section 7 "extensions", or a reserved-mext in front) and optionally another attribute order. Whatever the
+    // shape, the AuthMessage contains the message VERBATIM.
+    unsigned le = vp_cfg(6), shape = vp_cfg(7);   // shape 0: r,s,i[,E]   1: E,r,s,i   2: i,s,r[,E]
+    QByteArray E = vpBytesExact(le);
+    if (le) vp_assume(vpNoByte(E, ',') && !(le >= 2 && E.at(1) == '=' && (E.at(0) == 'r' || E.at(0) == 's' || E.at(0) == 'i')));   // not a duplicate of r/s/i
+    QByteArray pr("r="); pr.append(N); QByteArray ps("s="); ps.append(S); QByteArray pi("i="); pi.append(I);
+    QByteArray sf;
+    if (shape == 1 && le) { sf.append(E); sf.append(','); }
+    if (shape == 2) { sf.append(pi); sf.append(','); sf.append(ps); sf.append(','); sf.append(pr); }
+    else { sf.append(pr); sf.append(','); sf.append(ps); sf.append(','); sf.append(pi); }
+    if (shape != 1 && le) { sf.append(','); sf.append(E); }
+    if (!le) { if (shape == 2) hintPieces(sf, 2 + li, 2 + ls, 2 + ln); else hintPieces(sf, 2 + ln, 2 + ls, 2 + li); }
+    else if (shape == 1) hintPieces(sf, le, 2 + ln, 2 + ls, 2 + li);
+    else if (shape == 2) hintPieces(sf, 2 + li, 2 + ls, 2 + ln, le);
+    else hintPieces(sf, 2 + ln, 2 + ls, 2 + li, le);
     // what the message means (the reference is computed first: the oracle is order-independent)
     bool okI = false; int iters = I.toInt(&okI);
     QByteArray salt = QByteArray::fromBase64(S);
@@ -107,6 +121,12 @@ extern "C" void h_scram_exchange()
     vp_assert(*r1 == expFinal, "C06 SCRAM client-final = 'c=biws,r=' nonce ',p=' base64(ClientKey XOR HMAC(H(ClientKey), AuthMessage)) with RFC 5802 key derivation");
     vp_assert(k.c->m_serverSignature == ssig, "C06 SCRAM expected ServerSignature = HMAC(HMAC(SaltedPassword,'Server Key'), AuthMessage)");
     vp_assert(k.c->m_step == 2, "C06 SCRAM step 2 after client-final");
+    // directly on the oracle log: both signatures are HMACs over client-first-bare "," server-first AS RECEIVED "," client-final-without-proof
+    {
+        QByteArray m1, m2; vp_orc_in2(nref + 3, &m1); vp_orc_in2(nref + 5, &m2);
+        vp_assert(vp_orc_kind(nref + 3) == 2 && m1 == am, "C06 SCRAM ClientSignature is an HMAC over the AuthMessage with the received server-first verbatim");
+        vp_assert(vp_orc_kind(nref + 5) == 2 && m2 == am, "C06 SCRAM ServerSignature is an HMAC over the AuthMessage with the received server-first verbatim");
+    }
     // server-final
     QByteArray V = vpBytesExact(vp_diglen());
     QByteArray fin("v="); fin.append(V.toBase64());
